@@ -161,6 +161,9 @@ func (e *Env) ghostSort(g *GhostDecl) (sort, kind, ks, es string) {
 	switch {
 	case strings.HasPrefix(t, "set["):
 		_, s := e.resolveType(t[4 : len(t)-1])
+		if s == "" {
+			return "", "", "", ""
+		}
 		return "(Array " + s + " Bool)", "set", s, SBool
 	case strings.HasPrefix(t, "map["):
 		d := 0
@@ -173,6 +176,10 @@ func (e *Env) ghostSort(g *GhostDecl) (sort, kind, ks, es string) {
 				if d == 0 {
 					_, k := e.resolveType(t[4:i])
 					_, v := e.resolveType(t[i+1:])
+					if k == "" || v == "" {
+						// a type of a package that is not part of this load: the ghost does not exist here
+						return "", "", "", ""
+					}
 					return "(Array " + k + " " + v + ")", "gmap", k, v
 				}
 			}
